@@ -109,7 +109,7 @@ type Recorder struct {
 }
 
 func NewRecorder(c Case, opLogPath string) *Recorder {
-	r := &Recorder{distinct: map[string]struct{}{}, maxSamp: 3, vioSeen: map[string]int{}}
+	r := &Recorder{distinct: map[string]struct{}{}, maxSamp: 8, vioSeen: map[string]int{}}
 	r.res.Case = c
 	r.res.Counters = map[string]int64{}
 	if opLogPath != "" {
